@@ -11,7 +11,7 @@ thread pre-emption, large outputs).
 import copy
 
 from . import harness
-from .engine import Violation, gen_costs, collect_info, cut, gen_dt, gen_eintr, gen_intr
+from .engine import Violation, gen_costs, collect_info, cut, gen_dt, gen_eintr, gen_intr, gen_epoch
 from .harness import EOF, TIMEOUT
 from .world import SimHang, HarnessError, SimInterrupt
 
@@ -124,6 +124,7 @@ def generate(rng):
         scn['record_sites'] = False
     gen_eintr(rng, scn)
     gen_intr(rng, scn, p=0.08, nmax=12)
+    gen_epoch(rng, scn, 0.2)
     return scn
 
 
